@@ -196,3 +196,48 @@ pub fn set_contains(x: EntityAny) -> bool {
     let (k, v) = x.raw();
     s.contains(&EntityAny::from_raw((k, v)).unwrap())
 }
+
+// ---- runtime-borrow programs (C11)
+pub trait Held {}
+impl<T> Held for T {}
+
+pub enum BCmd {
+    Hc { a: usize, c: usize, m: bool, k: usize },
+    Hs { a: usize, c: usize, m: bool },
+    Rel,
+    Fb { q: usize, k: usize, body: Vec<BCmd> },
+    Ib { q: usize, body: Vec<BCmd> },
+    Cl,
+    Pn,
+}
+
+/// One length-prefixed record of a borrow program's observation.
+pub fn rec(out: &mut Vec<u64>, r: &[u64]) {
+    out.push(r.len() as u64);
+    out.extend_from_slice(r);
+}
+
+fn parse_bseq(t: &[&str], pos: &mut usize) -> Vec<BCmd> {
+    let mut out = Vec::new();
+    while *pos < t.len() {
+        let tok = t[*pos];
+        *pos += 1;
+        match tok {
+            ")" => return out,
+            "rel" => out.push(BCmd::Rel),
+            "cl" => out.push(BCmd::Cl),
+            "pn" => out.push(BCmd::Pn),
+            "hs" => { let a = t[*pos].parse().unwrap(); let c = t[*pos + 1].parse().unwrap(); let m = t[*pos + 2] == "m"; *pos += 3; out.push(BCmd::Hs { a, c, m }); }
+            "hc" => { let a = t[*pos].parse().unwrap(); let c = t[*pos + 1].parse().unwrap(); let m = t[*pos + 2] == "m"; let k = t[*pos + 3].parse().unwrap(); *pos += 4; out.push(BCmd::Hc { a, c, m, k }); }
+            "fb" => { let q = t[*pos].parse().unwrap(); let k = t[*pos + 1].parse().unwrap(); assert!(t[*pos + 2] == "(", "harness: expected ("); *pos += 3; let body = parse_bseq(t, pos); out.push(BCmd::Fb { q, k, body }); }
+            "ib" => { let q = t[*pos].parse().unwrap(); assert!(t[*pos + 1] == "(", "harness: expected ("); *pos += 2; let body = parse_bseq(t, pos); out.push(BCmd::Ib { q, body }); }
+            _ => panic!("harness: bad borrow token"),
+        }
+    }
+    out
+}
+
+pub fn parse_bprog(t: &[&str]) -> Vec<BCmd> {
+    let mut pos = 0;
+    parse_bseq(t, &mut pos)
+}
